@@ -4,7 +4,10 @@ from __future__ import annotations
 import copy
 import math
 
+import numpy as np
+
 from ..ref.norms import SNORMS, TNORMS
+from ..ref.terms import ATTRS
 from . import terms as G
 
 inf, nan = math.inf, math.nan
@@ -469,3 +472,28 @@ def make_rule(fl, rnd, text, engine):
         fl.RuleBlock("tmp", rules=[rule]).load_rules(engine)
         return rule
     return fl.FllImporter().rule(f"rule: {text}", engine)
+
+
+def retype(ctx, fl, rnd, engine):
+    """the same numbers held as NumPy floating-point scalars (parameters taken from arrays): float64 always, float32 where the
+    value is exactly representable - the engine is the same engine"""
+
+    def conv(x):
+        if isinstance(x, bool) or not isinstance(x, float):
+            return x
+        kind = rnd.choice([np.float64, np.float32, None])
+        if kind is None or (kind is np.float32 and math.isfinite(x) and float(np.float32(x)) != x):
+            return x
+        return kind(x)
+
+    for v in engine.variables:
+        v.minimum, v.maximum = conv(v.minimum), conv(v.maximum)
+        if isinstance(v, fl.OutputVariable):
+            v.default_value = conv(v.default_value)
+        for t in v.terms:
+            for name in ATTRS.get(type(t).__name__, ()):
+                setattr(t, name, conv(getattr(t, name)))
+            if type(t).__name__ == "Constant":
+                t.value = conv(t.value)
+            t.height = conv(t.height)
+    ctx.hit("workload:numbers held as NumPy floating-point scalars")
